@@ -85,6 +85,15 @@ FrameOK(ev) == snap = <<>> \/ ~Has(ev, "held") \/
     /\ ev.dochash = snap.hash)
 SnapAfter(ev) == IF Has(ev, "held") THEN [held |-> ev.held, hash |-> ev.dochash] ELSE snap
 
+\* the thin wrappers: ExecAsString = string(result), ExecAsNumber = number(result), ExecAsNodeset = the
+\* result itself if it is a node-set and an error otherwise ("api": {"s": chars, "n": numeral, "ns": BOOLEAN})
+ApiOK(d, ev, want) ==
+  ~Has(ev, "api") \/ IsErr(want) \/
+  LET ws == ToStr(d, want) wn == ToNum(d, want) IN
+  /\ (IsUnkStr(ws) \/ ev.api.s = ws)
+  /\ (IsUnk(wn) \/ ev.api.n = wn)
+  /\ (ev.api.ns <=> want.t = "ns")
+
 ExecRet ==
   /\ IsEvent("exec")
   /\ LET ev == Trace[l]
@@ -97,8 +106,9 @@ ExecRet ==
          known == bad0 /\ Affected(ev.e, OpenFx) /\
                   LET kv == Judge(d, ev.e, Eval(d, [ns |-> env.ns, vars |-> env.vars, funcs |-> env.funcs, fx |-> OpenFx], ev.e, Ctx(ev.ctx)), ev.res)
                   IN kv.val # "bad" /\ kv.ord # "bad"
-         bad == (bad0 /\ ~known) \/ ~FrameOK(ev)
-     IN /\ (bad => PrintT(ToJson([verdict |-> [val |-> IF known THEN "ok" ELSE v.val, ord |-> IF known THEN "ok" ELSE v.ord,
+         api == bad0 \/ known \/ ApiOK(d, ev, want)
+         bad == (bad0 /\ ~known) \/ ~FrameOK(ev) \/ ~api
+     IN /\ (bad => PrintT(ToJson([verdict |-> [val |-> IF known THEN "ok" ELSE IF api THEN v.val ELSE "bad", ord |-> IF known THEN "ok" ELSE v.ord,
                                                frame |-> IF FrameOK(ev) THEN "ok" ELSE "bad"], l |-> l, want |-> JVT(want)])))
         /\ (known => PrintT(ToJson([verdict |-> "known", l |-> l, fx |-> OpenFx])))
         /\ ((v.val = "skip") => PrintT(ToJson([verdict |-> "skip", l |-> l])))
